@@ -18,9 +18,12 @@
 package types
 
 import (
+	"bytes"
 	"encoding/base64"
 	"encoding/json"
+	"fmt"
 	"reflect"
+	"strconv"
 	"time"
 )
 
@@ -193,8 +196,13 @@ func (c *ColumnImage) MarshalJSON() ([]byte, error) {
 		return json.Marshal(*c)
 	}
 	value := c.Value
-	if t, ok := c.Value.(time.Time); ok {
-		value = t.Format(time.RFC3339Nano)
+	switch v := c.Value.(type) {
+	case time.Time:
+		value = v.Format(time.RFC3339Nano)
+	case string:
+		// written base64 like a byte value: the reader's base64 step is then exact for
+		// every string (a raw "test" is itself valid base64 and used to decode to garbage)
+		value = []byte(v)
 	}
 	return json.Marshal(&columnImageAlias{
 		KeyType:    c.KeyType,
@@ -205,61 +213,32 @@ func (c *ColumnImage) MarshalJSON() ([]byte, error) {
 }
 
 func (c *ColumnImage) UnmarshalJSON(data []byte) error {
-	var err error
 	tmpImage := make(map[string]interface{})
-	if err := json.Unmarshal(data, &tmpImage); err != nil {
+	decoder := json.NewDecoder(bytes.NewReader(data))
+	// numbers are kept as literals: an int64 does not survive a detour through float64
+	decoder.UseNumber()
+	if err := decoder.Decode(&tmpImage); err != nil {
 		return err
 	}
-	var (
-		keyType     string
-		columnType  int16
-		columnName  string
-		value       interface{}
-		actualValue interface{}
-	)
-	keyType = tmpImage["keyType"].(string)
-	columnType = int16(int64(tmpImage["type"].(float64)))
-	columnName = tmpImage["name"].(string)
-	value = tmpImage["value"]
-
-	if value != nil {
-		switch JDBCType(columnType) {
-		case JDBCTypeReal: // 4 Bytes
-			actualValue = value.(float32)
-		case JDBCTypeDecimal, JDBCTypeDouble: // 8 Bytes
-			actualValue = value.(float64)
-		case JDBCTypeTinyInt: // 1 Bytes
-			actualValue = int8(value.(float64))
-		case JDBCTypeSmallInt: // 2 Bytes
-			actualValue = int16(value.(float64))
-		case JDBCTypeInteger: // 4 Bytes
-			actualValue = int32(value.(float64))
-		case JDBCTypeBigInt: // 8Bytes
-			actualValue = int64(value.(float64))
-		case JDBCTypeTimestamp: // 4 Bytes
-			actualValue, err = time.Parse(time.RFC3339Nano, value.(string))
-			if err != nil {
-				return err
-			}
-		case JDBCTypeDate: // 3Bytes
-			actualValue, err = time.Parse(time.RFC3339Nano, value.(string))
-			if err != nil {
-				return err
-			}
-		case JDBCTypeTime: // 3Bytes
-			actualValue, err = time.Parse(time.RFC3339Nano, value.(string))
-			if err != nil {
-				return err
-			}
-		case JDBCTypeChar, JDBCTypeVarchar, JDBCTypeLongVarchar:
-			var val []byte
-			if val, err = base64.StdEncoding.DecodeString(value.(string)); err != nil {
-				val = []byte(value.(string))
-			}
-			actualValue = string(val)
-		case JDBCTypeBinary, JDBCTypeVarBinary, JDBCTypeLongVarBinary, JDBCTypeBit:
-			actualValue = value
-		}
+	keyType, ok := tmpImage["keyType"].(string)
+	if !ok {
+		return fmt.Errorf("column image: keyType is not a string")
+	}
+	columnName, ok := tmpImage["name"].(string)
+	if !ok {
+		return fmt.Errorf("column image: name is not a string")
+	}
+	typeNumber, ok := tmpImage["type"].(json.Number)
+	if !ok {
+		return fmt.Errorf("column image %s: type is not a number", columnName)
+	}
+	columnType, err := strconv.ParseInt(typeNumber.String(), 10, 16)
+	if err != nil {
+		return fmt.Errorf("column image %s: invalid type %s", columnName, typeNumber)
+	}
+	actualValue, err := decodeColumnValue(JDBCType(columnType), tmpImage["value"])
+	if err != nil {
+		return fmt.Errorf("column image %s: %w", columnName, err)
 	}
 	*c = ColumnImage{
 		KeyType:    ParseIndexType(keyType),
@@ -268,6 +247,81 @@ func (c *ColumnImage) UnmarshalJSON(data []byte) error {
 		Value:      actualValue,
 	}
 	return nil
+}
+
+// decodeColumnValue restores the Go value of a column from its JSON form according to the JDBC type.
+// A JSON value whose shape does not fit the type is decoded by its shape alone.
+func decodeColumnValue(columnType JDBCType, value interface{}) (interface{}, error) {
+	if value == nil {
+		return nil, nil
+	}
+	switch columnType {
+	case JDBCTypeReal, JDBCTypeFloat, JDBCTypeDouble, JDBCTypeDecimal, JDBCTypeNumberic: // scanned as float64
+		if number, ok := value.(json.Number); ok {
+			return number.Float64()
+		}
+	case JDBCTypeTinyInt: // 1 Bytes
+		if i, ok := decodeInteger(value); ok {
+			if int64(int8(i)) == i {
+				return int8(i), nil
+			}
+			return i, nil
+		}
+	case JDBCTypeSmallInt: // 2 Bytes
+		if i, ok := decodeInteger(value); ok {
+			if int64(int16(i)) == i {
+				return int16(i), nil
+			}
+			return i, nil
+		}
+	case JDBCTypeInteger: // 4 Bytes
+		if i, ok := decodeInteger(value); ok {
+			if int64(int32(i)) == i {
+				return int32(i), nil
+			}
+			return i, nil
+		}
+	case JDBCTypeBigInt, JDBCTypeBit: // 8Bytes
+		if i, ok := decodeInteger(value); ok {
+			return i, nil
+		}
+	case JDBCTypeTimestamp, JDBCTypeDate, JDBCTypeTime:
+		if text, ok := value.(string); ok {
+			return time.Parse(time.RFC3339Nano, text)
+		}
+	case JDBCTypeChar, JDBCTypeVarchar, JDBCTypeLongVarchar, JDBCTypeNchar, JDBCTypeNvarchar, JDBCTypeLongNvVarchar,
+		JDBCTypeClob, JDBCTypeNclob:
+		if text, ok := value.(string); ok {
+			val, err := base64.StdEncoding.DecodeString(text)
+			if err != nil {
+				val = []byte(text)
+			}
+			return string(val), nil
+		}
+	}
+	// binary types, types without a case of their own, and values of an unexpected shape
+	switch v := value.(type) {
+	case string:
+		if val, err := base64.StdEncoding.DecodeString(v); err == nil {
+			return val, nil
+		}
+		return v, nil
+	case json.Number:
+		if i, ok := decodeInteger(v); ok {
+			return i, nil
+		}
+		return v.Float64()
+	}
+	return value, nil
+}
+
+func decodeInteger(value interface{}) (int64, bool) {
+	number, ok := value.(json.Number)
+	if !ok {
+		return 0, false
+	}
+	i, err := strconv.ParseInt(number.String(), 10, 64)
+	return i, err == nil
 }
 
 func (c *ColumnImage) GetActualValue() interface{} {
